@@ -148,7 +148,14 @@ func runBundle(base string, c *mCase) (obs *mObs) {
 				obs.WrongDir++
 			}
 			// reverse lookup must invert, also for spellings with . and ..
-			for _, sp := range []string{p, p + "/.", filepath.Dir(p) + "/../" + filepath.Base(filepath.Dir(p)) + "/" + filepath.Base(p)} {
+			spellings := []string{p, p + "/.", filepath.Dir(p) + "/../" + filepath.Base(filepath.Dir(p)) + "/" + filepath.Base(p)}
+			if cwd, cerr := os.Getwd(); cerr == nil {
+				// the same location written relative to the working directory
+				if rel, rerr := filepath.Rel(cwd, p); rerr == nil {
+					spellings = append(spellings, rel)
+				}
+			}
+			for _, sp := range spellings {
 				if sp != p && p == filepath.Join(root, l.Dir) {
 					continue // the odd spellings are only meaningful below the package root
 				}
